@@ -545,6 +545,8 @@ def v_rename(self, target, *a, **k):
         return _orig["rename"](self, target, *a, **k)
     _refuse_if_dead()
     r = _orig["rename"](self, target, *a, **k)
+    if str(target).endswith((".pid", ".done", ".failed", ".token")):
+        W.markers.add(str(target))
     fs_event("rename", self)
     return r
 
@@ -554,6 +556,8 @@ def v_replace(self, target, *a, **k):
         return _orig["replace"](self, target, *a, **k)
     _refuse_if_dead()
     r = _orig["replace"](self, target, *a, **k)
+    if str(target).endswith((".pid", ".done", ".failed", ".token")):
+        W.markers.add(str(target))
     fs_event("rename", self)
     return r
 
@@ -587,10 +591,30 @@ def v_rmtree(path, *a, **k):
     return r
 
 
+def v_read_text(self, *a, **k):
+    """TokenFile.watch() polls the pid file in a spin loop (`while s == "": s = pidpath.read_text()`): the wait is made
+    visible - the reader blocks until the file has content or is gone - otherwise the explorer would never get control back."""
+    r = _orig["read_text"](self, *a, **k)
+    if r == "" and _tracked(self) and str(self).endswith(".pid") and sys._getframe(1).f_code.co_filename.endswith("tokens.py"):
+        p = str(self)
+        W.events.append(("spin", current_proc().pid, os.path.basename(p)))
+
+        def ready():
+            try:
+                return os.path.getsize(p) > 0
+            except OSError:
+                return True
+        HUB.block_on(ready)
+        return _orig["read_text"](self, *a, **k)
+    return r
+
+
 def install_fs():
     import pathlib
     if _orig:
         return
+    _orig["read_text"] = pathlib.Path.read_text
+    pathlib.Path.read_text = v_read_text
     for name, fn in (("open", v_open), ("write_text", v_write_text), ("touch", v_touch), ("unlink", v_unlink),
                      ("rename", v_rename), ("replace", v_replace), ("symlink_to", v_symlink_to), ("mkdir", v_mkdir)):
         _orig[name] = getattr(pathlib.Path, name)
